@@ -486,6 +486,9 @@ class _ArrInterp(FinamInterp):
             if n == "is_quantified":
                 return bool(getattr(self, "quantified", False)) and args[0] == Sym("X")
             if n == "quantify":
+                if self._is_q(args[0]):
+                    # quantify() refuses data that carries units already
+                    self.on_raise(Sym("exc", "FinamDataError", "Data is already quantified"), node)
                 return Sym("qty", args[0], args[1] if len(args) > 1 else kwargs.get("units"))
             if n == "get_magnitude":
                 return Sym("X.magnitude") if args[0] == Sym("X") else args[0]
@@ -496,6 +499,15 @@ class _ArrInterp(FinamInterp):
         if isinstance(fv, Sym) and fv.op == "method":
             return _np_term(fv.args[1], [fv.args[0]] + list(args), kwargs, method=True)
         return super().call_hook(fv, args, kwargs, node, mod)
+
+    def _is_q(self, v):
+        """numpy's ravel / reshape / compress keep the units of a quantity (the masked array inside is reached only through
+        `.data` / `.magnitude`)."""
+        if not getattr(self, "quantified", False):
+            return False
+        if v == Sym("X"):
+            return True
+        return isinstance(v, Sym) and v.op in ("ravel", "reshape", "compress", "flatten") and bool(v.args) and self._is_q(v.args[0])
 
     def get_attr(self, obj, attr, node, mod):
         if isinstance(obj, Sym) and obj.op == "ext" and obj.args[0] in ("np.ma", "numpy.ma") and attr == "nomask":
@@ -565,6 +577,21 @@ def r33c_compress(repo, sink):
                        "(5 m must not come back as 5)")
     except (Raised, Undecided, AnalysisError) as exc:
         sink.unknown("R33", "compress:to:quantified", tc, f"outside vocabulary: {exc}")
+    # quantified plain data with an explicit mask: the same round trip, the units are attached once
+    it = _ArrInterp(repo, masked_input=False)
+    it.quantified = True
+    try:
+        got = it.run(tc, [X], {"order": O, "mask": M})
+        want_q = Sym("compress", Sym("ravel", Sym("X.magnitude"), O), Sym("logical_not", Sym("ravel", M, O)))
+        ok = isinstance(got, Sym) and got.op == "qty" and got.args[1] == Sym("X.units") and got.args[0] == want_q
+        sink.check(ok, "R33", "compress:to:quantified-explicit-mask", tc, ok="quantified plain data with an explicit mask: compressed magnitudes with the units of the input",
+                   bad=f"to_compressed on a quantified plain array with an explicit mask computes {got!r}")
+    except Raised as r:
+        sink.bad("R33", "compress:to:quantified-explicit-mask", tc,
+                 f"to_compressed on a quantified plain array with an explicit mask raises {r.name}: the flattened data still carries its units when they are "
+                 "attached again - the compress / expand round trip fails for quantified unmasked data in every shape and order")
+    except (Undecided, AnalysisError) as exc:
+        sink.unknown("R33", "compress:to:quantified-explicit-mask", tc, f"outside vocabulary: {exc}")
     # masked array / explicit mask that is numpy's `nomask`: nothing is dropped, the order still applies
     it = _ArrInterp(repo, masked_input=True)
     it.nomask_input = True
@@ -1243,6 +1270,47 @@ def r15g_gridcompat(repo, sink):
                bad=(worst or "") + ": layout-sensitive equality decides whether data is passed through untransformed")
 
 
+def r15gl_without_location(repo, sink):
+    """StructuredGrid.compatible_with(other, check_location=False): same node coordinates or not (public API; C15 only)."""
+    sg = repo.cls("StructuredGrid")
+    f = repo.resolve(sg, "compatible_with", "method")
+
+    def grid(dim=2, crs=None, loc="CELLS", rev=False, shape=(3, 2), label="grid", axes=None):
+        o = Obj(cls=sg, label=label)
+        ax = axes or [Vec((0, 1, 2, 4)), Vec((0, 1, 3)), Vec((0, 5))]
+        o.fields.update(dim=dim, crs=crs, data_location=Sym("enum", "Location", loc), axes_reversed=rev,
+                        data_shape=shape, axes=ax[:dim])
+        return o
+
+    base = dict(dim=2, crs=None, loc="CELLS", rev=False, shape=(3, 2))
+    # the same question with the data location left out of the comparison (check_location=False): same node coordinates or not
+    cases2 = [
+        ("identical", {}, True),
+        ("other data location (and therefore another data shape)", {"loc": "POINTS", "shape": (4, 3)}, True),
+        ("different CRS", {"crs": "EPSG:4326"}, False),
+        ("only the x coordinates differ", {"axes": [Vec((1, 2, 3, 5)), Vec((0, 1, 3))]}, False),
+        ("one more node in x", {"axes": [Vec((0, 1, 2, 3, 4)), Vec((0, 1, 3))], "shape": (4, 2)}, False),
+        ("one node less in y", {"axes": [Vec((0, 1, 2, 4)), Vec((0, 1))], "shape": (3, 1)}, False),
+    ]
+    worst = None
+    for name, delta, want in cases2:
+        it = _GridCompat(repo, True)
+        try:
+            got = it.run(f, [grid(**{**base, **delta})], {"check_location": False}, self_obj=grid(**base))
+        except Raised as exc:
+            worst = worst or f"{name}: compatible_with(other, check_location=False) raises {exc.name} instead of answering {want}"
+            continue
+        except Undecided as exc:
+            worst = worst or f"{name}: {exc}"
+            continue
+        if bool(got) != want:
+            worst = worst or f"{name}: compatible_with(other, check_location=False) is {bool(got)}, must be {want}"
+    sink.check(worst is None, "R15gl", "compat-table:StructuredGrid:without-location", f,
+               ok="without the location: compatible iff same dimension, CRS and node coordinates; grids of different sizes are answered with False",
+               bad=worst or "")
+
+
+
 # =========================================================================== R15c
 def r15c_copy_with(repo, sink):
     """Info.copy_with: with use_none=False a None argument never overwrites a set field -
@@ -1312,11 +1380,17 @@ def r15c_copy_with(repo, sink):
         def ext_isinstance(self, v, name, node):
             if name.endswith("datetime"):
                 return isinstance(v, Sym) and v.op == "time"
+            if name.split(".")[-1] in ("ndarray", "MaskedArray") and isinstance(v, Sym) and v.op in ("maskarr", "rawmask"):
+                if v.op == "maskarr":
+                    return name.endswith("ndarray")
+                return {"ndarray": v.args[1] in ("int-array", "bool-array", "masked-int-array"), "MaskedArray": v.args[1] == "masked-int-array"}[name.split(".")[-1]]
+            if name in ("list", "tuple") and isinstance(v, Sym) and v.op in ("maskarr", "rawmask"):
+                return v.op == "rawmask" and v.args[1] == name
             return super().ext_isinstance(v, name, node)
 
         def call_hook(self, fv, args, kwargs, node, mod):
             if isinstance(fv, Closure) and getattr(fv.func, "name", "") == "mask_specified":
-                return isinstance(args[0], Sym) and args[0].op == "maskarr"
+                return isinstance(args[0], Sym) and args[0].op in ("maskarr", "rawmask")
             return super().call_hook(fv, args, kwargs, node, mod)
 
         def get_attr(self, obj, attr, node, mod):
@@ -1333,9 +1407,16 @@ def r15c_copy_with(repo, sink):
             if short == "Unit":
                 return Sym("unit", args[0])
             if short == "make_mask":
+                if isinstance(args[0], Sym) and args[0].op == "rawmask":
+                    return Sym("maskarr", args[0].args[0], args[0].args[2])  # the boolean mask array of the same truth values
                 return args[0]
-            if short == "shape" and isinstance(args[0], Sym) and args[0].op == "maskarr":
-                return args[0].args[1]
+            if short in ("asarray", "array", "asanyarray") and isinstance(args[0], Sym) and args[0].op == "rawmask":
+                dt = kwargs.get("dtype", args[1] if len(args) > 1 else None)
+                if isinstance(dt, Sym) and dt.op == "ext" and dt.args[0].split(".")[-1] in ("bool", "bool_"):
+                    return Sym("maskarr", args[0].args[0], args[0].args[2])
+                return Sym("rawmask", args[0].args[0], "int-array" if args[0].args[1] != "bool-array" else "bool-array", args[0].args[2])
+            if short == "shape" and isinstance(args[0], Sym) and args[0].op in ("maskarr", "rawmask"):
+                return args[0].args[-1]
             if short in ("array_equal", "array_equiv"):
                 return tuple(args[0]) == tuple(args[1]) if all(isinstance(a, (tuple, list)) for a in args[:2]) else args[0] == args[1]
             return super().ext_call(name, args, kwargs, node)
@@ -1368,6 +1449,29 @@ def r15c_copy_with(repo, sink):
     if why != "skip":
         sink.check(why is None, "R15", "copy_with-relayout", f,
                    ok="a delivered info with a fixed mask can be merged onto a compatible grid of another layout", bad=why or "")
+    # whatever form a fixed mask is given in (0/1 integers, a list, a masked array ...), the info keeps it as a boolean mask array:
+    # the comparisons of masks (equal, sub-mask) only recognise those
+    for kind in ("int-array", "list", "masked-int-array", "bool-array"):
+        try:
+            it = _R(repo)
+            raw = Sym("rawmask", "M", kind, (3, 2))
+            o = it.construct(ic, [], {"time": Sym("time", "T"), "grid": g1, "mask": raw, "units": "m"}, None)
+            mm = it.attr(o, "mask", None, None)
+            o2 = it.construct(ic, [], {"time": Sym("time", "T"), "grid": g1, "units": "m"}, None)
+            it.store_attr(o2, "mask", raw, None)
+            mm2 = it.attr(o2, "mask", None, None)
+        except Raised as r:
+            sink.bad("R15", f"mask-normalised:{kind}", f, f"an Info with a fixed mask given as {kind} cannot be built: {r.name}")
+            continue
+        except (Undecided, AnalysisError) as exc:
+            sink.unknown("R15", f"mask-normalised:{kind}", f, f"outside vocabulary: {exc}")
+            continue
+        want = Sym("maskarr", "M", (3, 2))
+        okv = [want] + ([raw] if kind == "bool-array" else [])
+        sink.check(mm in okv and mm2 in okv, "R15", f"mask-normalised:{kind}", f,
+                   ok=f"a fixed mask given as {kind} is kept as a boolean mask array (constructor and setter)",
+                   bad=f"a fixed mask given as {kind} is stored as {mm!r} (constructor) / {mm2!r} (setter), not as a boolean mask array: masks_equal / sub-mask tests "
+                       "recognise only boolean masks, so this info's mask equals no mask - not even itself - and a fixed-mask consumer refuses the very same mask")
 
 
 # =========================================================================== R16u
